@@ -230,6 +230,9 @@ pub fn run(ctx: &mut Ctx) {
             let mut a: HANDLE = std::ptr::null_mut();
             if !unsafe { SFileCreateArchive2(cp.as_ptr(), &info, &mut a) } { ctx.out.stat("c19.writable.create_failed"); continue; }
             let mut map: BTreeMap<String, Vec<u8>> = BTreeMap::new();
+            // file handles kept open across later steps (an application streaming one file while it patches another - or the
+            // same one): what a NEW open returns never depends on which older handles are still around
+            let mut lingering: Vec<HANDLE> = vec![];
             let mut trace = format!("create v{} listfile={}; ", hi % 4 + 1, hi % 3 != 0);
             let steps = ctx.rng.range(3, 14);
             for st in 0..steps {
@@ -268,12 +271,13 @@ pub fn run(ctx: &mut Ctx) {
                         let okr = unsafe { SFileReadFile(f, buf[16..].as_mut_ptr() as *mut c_void, sz as u32 + 32, &mut got, std::ptr::null_mut()) };
                         if let Some(d) = want { good &= sz == d.len() && (okr || d.is_empty()) && got as usize == d.len() && buf[16..16 + got as usize] == d[..]; }
                         good &= buf[..16].iter().all(|b| *b == CANARY) && buf[16 + got as usize..].iter().all(|b| *b == CANARY);
-                        let _ = SFileCloseFile(f);
+                        if hi % 2 == 1 && lingering.len() < 8 && ctx.rng.chance(1, 3) { lingering.push(f); trace.push_str(&format!("(handle on {name} kept open) ")); } else { let _ = SFileCloseFile(f); }
                     }
                     ctx.out.oracle(good, "ffi-writable-view-differs-from-map", &format!("{name}: has={has} opened={opened} want={:?} :: {trace}", want.map(|d| d.len())));
                 }
                 if trace.len() > 1200 { trace = format!("…{}", &trace[trace.len() - 900..]); }
             }
+            for f in lingering { let _ = SFileCloseFile(f); }
             let _ = SFileCloseArchive(a);
             match Archive::open(&path) { Ok(mut r) => { for name in pool { let got = r.read_file(name).ok(); ctx.out.oracle(got.as_ref() == map.get(name), "ffi-written-archive-differs-from-map", &format!("{name}: rust reads {:?}, map {:?} :: {trace}", got.as_ref().map(|d| d.len()), map.get(name).map(|d| d.len()))); } }
                 Err(e) => ctx.out.oracle(false, "ffi-written-archive-does-not-open", &format!("{e} :: {trace}")) }
@@ -285,7 +289,13 @@ pub fn run(ctx: &mut Ctx) {
         let dir = tempfile::tempdir().expect("tmp");
         let long = format!("{}\\{}.txt", "d".repeat(150), "n".repeat(200));
         let p = dir.path().join("long.mpq");
-        ArchiveBuilder::new().listfile_option(ListfileOption::Generate).add_file_data(b"x".to_vec(), &long).build(&p).expect("build long");
+        // next to it: names longer than the find-data buffer whose byte 259 falls inside a 2-, 3- and 4-byte character, and
+        // one where a character ends exactly there (enumeration must neither crash nor overrun)
+        let mut lb = ArchiveBuilder::new().listfile_option(ListfileOption::Generate).add_file_data(b"x".to_vec(), &long);
+        for (pre, ch) in [(258usize, "\u{e9}"), (258, "\u{20ac}"), (257, "\u{20ac}"), (258, "\u{1f600}"), (257, "\u{1f600}"), (256, "\u{1f600}"), (257, "\u{e9}")] {
+            lb = lb.add_file_data(b"y".to_vec(), &format!("{}{}{}.dat", "u".repeat(pre), ch, "t".repeat(20)));
+        }
+        lb.build(&p).expect("build long");
         let cp = CString::new(p.to_str().unwrap_or("")).unwrap();
         let mut a: HANDLE = std::ptr::null_mut();
         if unsafe { SFileOpenArchive(cp.as_ptr(), 0, 0, &mut a) } {
